@@ -58,7 +58,7 @@ theorem reconnect_failure_retries (c : Codes) (b : Bool) (k : M Out) (w : World)
   have hens : (ensureConnection w).val = .error .dongleComm ∧
       (ensureConnection w).evs = [.disconnect, .connect false] ∧
       (ensureConnection w).w = { w with conns := rest } := by
-    simp [ensureConnection, M.bind_apply, getWorld, hi, disconnect, M.emit, initializeDevice,
+    simp [ensureConnection, M.bind_apply, getWorld, hi, disconnect, M.emit, initializeDevice, initGuards,
       M.tryCatchIf, connect, hc, Exc.isDongleBase, M.throw']
   have hm : ((do ensureConnection; k : M Out) w).val = .error .dongleComm ∧
       ((do ensureConnection; k : M Out) w).evs = [.disconnect, .connect false] ∧
